@@ -475,7 +475,14 @@ impl<Left: Executor, Right: Executor> Executor for HashJoin<Left, Right> {
             let left_row = self.current_left_row.as_ref().unwrap();
             let left_key = self.current_left_key.as_ref().unwrap();
 
-            if let Some(bucket) = self.hash_table.get_mut(left_key) {
+            // `column = column` is never TRUE for a NULL key, but `DataType` says Null == Null (GROUP BY and
+            // DISTINCT need that): a left row with a NULL key has no partners, whatever the table holds.
+            let probe = if left_key.iter().any(|k| matches!(k, DataType::Null)) {
+                None
+            } else {
+                self.hash_table.get_mut(left_key)
+            };
+            if let Some(bucket) = probe {
                 while self.current_bucket_idx < bucket.len() {
                     let right_row = &bucket.rows[self.current_bucket_idx];
                     self.current_bucket_idx += 1;
